@@ -201,7 +201,7 @@ def fresh_name(base):
 
 
 class SX:
-    def __init__(self, unit, registry, feas_timeout_ms=1500):
+    def __init__(self, unit, registry, feas_timeout_ms=500):
         self.unit = unit
         self.reg = registry
         self.obligations = []
@@ -496,7 +496,10 @@ class SX:
         for h in st.pc:
             scan(h)
         if z3.is_app(v.term) and v.term.decl().name() == "int_to_str":
-            found.append(z3.Concat(z3.Option(z3.Re("-")), z3.Plus(z3.Range("0", "9"))))
+            if not self.feasible(st, v.term.arg(0) < 0):
+                found.append(z3.Plus(z3.Range("0", "9")))  # a non-negative integer prints as digits only
+            else:
+                found.append(z3.Concat(z3.Option(z3.Re("-")), z3.Plus(z3.Range("0", "9"))))
         if not found:
             return SX.ALLSTR
         r = found[0]
@@ -714,6 +717,8 @@ class SX:
             return Val(ty, ty.mk(arr, z3.IntVal(len(v.ty.items))))
         if isinstance(ty, V._Json):
             return self.B.to_json(self, v, st)
+        if isinstance(v.ty, V.Opt) and v.ty.inner == ty and not self.feasible(st, v.ty.is_none(v.term)):
+            return Val(ty, v.ty.get(v.term))  # an optional value known to be present on this path
         self.unsupported("cannot coerce %r to %r" % (v.ty, ty))
 
     def ev_Set(self, node, st):
@@ -1365,9 +1370,13 @@ class SX:
                     # sidecar-supplied conversion for a local whose python type changes over time
                     val = ty(self, val, st)
                 elif isinstance(val, Ref) and isinstance(st.heap.get(val.cell), tuple):
-                    # sidecar-declared type of a local that starts as an empty literal ([] / set() / {})
-                    st.heap[val.cell] = Val(ty, ty.empty())
-                    val.ty = ty
+                    # sidecar-declared type of a local that starts as an empty literal ([] / set() / {});
+                    # a dict {"emptylist": T1, "emptyset": T2} covers a name reused with different container kinds
+                    if isinstance(ty, dict):
+                        ty = ty.get(st.heap[val.cell][0])
+                    if ty is not None:
+                        st.heap[val.cell] = Val(ty, ty.empty())
+                        val.ty = ty
                 elif isinstance(ty, V.Opt) and isinstance(val, Val) and not isinstance(val, (Ref, Func, Conc)) and val.ty is not None:
                     val = self.as_opt(val, ty) if (isinstance(val.ty, V._None) or val.ty == ty.inner or val.ty == ty) else val
             st.env[tgt.id] = val
